@@ -1,4 +1,4 @@
-HOOK_COMMITS = ["1ae4f10", "19e3492", "628d03a", "f9a3fca"]
+HOOK_COMMITS = ["1ae4f10", "19e3492", "628d03a", "f9a3fca", "d2fcb1f"]
 ENGINES = [
     {"name": "racesim", "path": "/verif/harness/racesim", "serves_properties": ["C19"],
      "kind_free_text": "free-running concurrent operation mixes over shared instances of both daemons in a -race binary; the driver attributes detector reports"},
